@@ -276,9 +276,16 @@ var idleGoroutines = 0
 func repoGoroutines() []string {
 	var out []string
 	for _, g := range strings.Split(allStacks(), "\n\n") {
-		if strings.Contains(g, "github.com/brimdata/super") && !strings.Contains(g, "main.runCase") && !strings.Contains(g, "main.childMain") {
-			out = append(out, g)
+		// everything that runs repository code except the child's main goroutine and the goroutine that
+		// runs the case (a worker that is inside the harness' hook still counts: the hook closure's name
+		// contains "main.childMain", so match the harness goroutines by their identity, not by frame names)
+		if !strings.Contains(g, "github.com/brimdata/super") {
+			continue
 		}
+		if strings.HasPrefix(strings.TrimLeft(g, "\n"), "goroutine 1 [") || strings.Contains(g, "created by main.runCase") {
+			continue
+		}
+		out = append(out, g)
 	}
 	return out
 }
